@@ -340,6 +340,9 @@ func (r *Runner) Run() int {
 	fmt.Printf("check %s tier=%s paths=%d completed=%d solver_calls=%d (sat %d unsat %d unknown %d err %d) cross=%d disagree=%d solver_s=%.1f wall=%.1fs inconclusive=%d violations=%d\n",
 		c.ID, r.Tier, totalPaths, totalCompleted, stats.Queries, stats.SatN, stats.UnsatN, stats.UnknownN, stats.Errors, stats.CrossChecked, stats.Disagreements,
 		float64(stats.SolverNS)/1e9, wall.Seconds(), len(inconclusive), violN)
+	if exit == 1 {
+		return 1
+	}
 	if broken {
 		return 2
 	}
